@@ -86,10 +86,18 @@ class SgzCropper(SgzReader):
         header[8:12] = int_to_bytes(len_xlines)
         header[12:16] = int_to_bytes(len_ilines)
         header[16:20] = np_float_to_bytes_signed(np.int32(self.zslices[zslices_index_range[0]]))
-        header[20:24] = np_float_to_bytes(np.int32(self.xlines[xline_index_range[0]]))
-        header[24:28] = np_float_to_bytes(np.int32(self.ilines[iline_index_range[0]]))
+        header[20:24] = np_float_to_bytes_signed(np.int32(self.xlines[xline_index_range[0]]))
+        header[24:28] = np_float_to_bytes_signed(np.int32(self.ilines[iline_index_range[0]]))
         header[56:60] = int_to_bytes(compressed_data_length_diskblocks)
         header[60:64] = int_to_bytes((len_xlines * len_ilines * 32) // 8)
+        if self.structured:
+            tracecount = len_xlines * len_ilines
+        else:
+            self.get_unstructured_mask()
+            tracecount = int(np.count_nonzero(self.mask.reshape((self.n_ilines, self.n_xlines))[
+                                              iline_index_range[0]:iline_index_range[1],
+                                              xline_index_range[0]:xline_index_range[1]]))
+        header[68:72] = int_to_bytes(tracecount)
 
         # We need to inform the SEG-Y binary header what has happened to the trace length, otherwise
         # segyio will get all confused if attempting to read the cropped SGZ converted back to SEG-Y
